@@ -216,6 +216,14 @@ def cox_task(T, n, efron, shard=(0, 1)):
                     cs.append((f'raw_grad[{i}]==dV/dz_{i}', [], L(rg[i]) == dV[i]))
                     if n <= 2:
                         cs.append((f'raw_hessian[{i}]>=d2V/dz_{i}^2', [], L(rh[i]) >= d(dV[i], z[i])))
+                        # link to get_global_lipschitz (contracts/c09g.py): every diagonal bound is below sum(s)/n
+                        cs.append((f'raw_hessian[{i}]<=sum(s)/n', [], L(rh[i]) <= z3.RealVal(int(sum(yarr[:, 1]))) / n))
+                if n == 2 and T.tier != 'quick':
+                    # diag(raw_hessian) - Hessian is positive semi-definite (2x2: diagonal >= 0 above, determinant >= 0);
+                    # thorough tier only: the slowest instance takes 11 s, too close to the 20 s quick budget
+                    a, c = L(rh[0]) - d(dV[0], z[0]), L(rh[1]) - d(dV[1], z[1])
+                    b = d(dV[0], z[1])
+                    cs.append(('diag(raw_hessian)-Hessian:det>=0', [], a * c - b * b >= 0))
                 for j in range(2):
                     # modular: gradient is X^T raw_grad (raw_grad == dV/dz is the obligation above)
                     cs.append((f'gradient[{j}]==sum_i X_ij raw_grad_i', [], L(gr[j]) == z3.Sum([X[i][j] * L(rg[i]) for i in range(n)])))
